@@ -456,6 +456,9 @@ func aggrArg(t *rapid.T, c *GenCtx) *Node {
 	if c.MixedNumeric && c.Kind == KFloat && rapid.IntRange(0, 2).Draw(t, "mixedAggrArg") != 0 {
 		return Value() // numeric text: integers and floats mixed
 	}
+	if c.MixedNumeric && c.Kind == KInt && rapid.IntRange(0, 3).Draw(t, "textAggrArg") == 0 {
+		return Value() // integer text as it is stored (010 is ten)
+	}
 	switch rapid.IntRange(0, 4).Draw(t, "aggrArg") {
 	case 0:
 		return Call("strlen", Key())
